@@ -84,7 +84,7 @@ SITE_ACTIONS = {
     'os.unlink': [('errno', 'EACCES'), ('errno', 'EIO')],
     'os.access': [('false', None)],
     'os.utime': [('errno', 'EPERM')],
-    'open': [('errno', 'EACCES'), ('errno', 'ENOENT'), ('errno', 'EMFILE'), ('errno', 'EIO')],
+    'open': [('errno', 'EACCES'), ('errno', 'ENOENT'), ('errno', 'EMFILE'), ('errno', 'EIO'), ('vanish', None)],
     'file.read': [('errno', 'EIO')],
     'py_compile': [('exc', 'PyCompileError'), ('exc', 'SyntaxError'),
                    ('exc', 'OSError'), ('exc', 'RuntimeError')],
@@ -855,7 +855,7 @@ def drop_process_scratch():
     R.rmtree(os.path.join(scratch_base(), 'p%d' % os.getpid()), ignore_errors=True)
 
 
-def snapshot(path, with_mtime=True):
+def snapshot(path, with_mtime=True, scrub=None):
     """relpath -> ('d',) | ('f', size, sha1, mtime). Real calls only."""
     out = {}
     path = os.path.abspath(path)
@@ -876,6 +876,8 @@ def snapshot(path, with_mtime=True):
                 except OSError:
                     out[os.path.relpath(full, path)] = ('?',)
                     continue
+                if scrub:
+                    data = data.replace(scrub.encode(), b'<ROOT>')
                 rec = ('f', len(data), hashlib.sha1(data).hexdigest())
                 if with_mtime:
                     rec += (int(st.st_mtime),)
